@@ -29,8 +29,14 @@ def oracle_c08(c, x):
     if not exh and d.get("full") != "OK:" + exp:
         return "load_full did not return the stored value: %s" % (d.get("full") or "")[:100]
     nd = impl_need(c, x)
+    mload = dict(p.split("=", 1) for p in (c.mobs.get((x.cid, "load")) or "").split(" ") if "=" in p)
     for k, val in d.items():
         if not (k.startswith(("mem", "lmmap", "mmap")) and k[-1].isdigit()):
+            continue
+        if nd is not None and k.startswith("mem") and mload.get("mem") == "E:AlignmentError" and mload.get("mmap", "").startswith("OK"):
+            # the native alignment of the type exceeds the 64 bytes load_mem guarantees: refused up front
+            if not val.startswith("E:AlignmentError"):
+                return "load_mem of a type whose native alignment exceeds 64 gave %s, required AlignmentError" % val[:80]
             continue
         if exh:
             if not val.startswith("P"):
